@@ -12,6 +12,7 @@ import (
 	"fmt"
 	"io"
 	"os"
+	"runtime"
 	"sort"
 	"strings"
 	"testing"
@@ -51,6 +52,7 @@ func TestVerifC10Worker(t *testing.T) {
 	if os.Getenv("VERIF_C10_WORKER") == "" {
 		t.Skip("worker entry point")
 	}
+	runtime.GOMAXPROCS(2)
 	mfgen.Serve(c10Handle)
 	os.Exit(0)
 }
@@ -171,6 +173,8 @@ type c10Harness struct {
 	quiet    bool
 	cache    map[int]*c10Prep
 	cacheStr string
+	hangs    int
+	giveUp   bool // two confirmed stalls: stop feeding inputs (each costs two watchdog periods)
 }
 
 const c10Window = 32
@@ -234,6 +238,9 @@ func (h *c10Harness) window(stream string, i, n int, build func(rng *verifkit.Ra
 		delete(h.cache, i)
 		return pr
 	}
+	if h.giveUp {
+		return build(verifkit.CaseRand(h.run.Seed(), stream, i))
+	}
 	var idxs []int
 	var preps []*c10Prep
 	w := c10Window
@@ -253,20 +260,41 @@ func (h *c10Harness) window(stream string, i, n int, build func(rng *verifkit.Ra
 	return pr
 }
 
+func (h *c10Harness) noteHang() {
+	h.hangs++
+	if h.hangs >= 2 && !h.giveUp {
+		h.giveUp = true
+		h.run.Inconclusive("two confirmed stalls in this batch: the remaining cases of the batch were not run")
+	}
+}
+
+// ready makes sure a prepared case was executed (a stall in its window
+// leaves the cases behind it unexecuted). false: the batch has given up.
+func (h *c10Harness) ready(pr *c10Prep) bool {
+	if h.giveUp {
+		h.run.Count("skipped_after_stalls", 1)
+		return false
+	}
+	if pr.req != nil && pr.resp == nil && pr.crash == nil {
+		h.exec([]*c10Prep{pr})
+	}
+	return true
+}
+
 func (h *c10Harness) outcome(pr *c10Prep) (*mfgen.Resp, *mfgen.Finding) {
 	req, crash, resp := pr.req, pr.crash, pr.resp
 	if req == nil {
 		return nil, nil
 	}
 	if crash != nil && crash.Kind == "hang" {
-		_, crash2, err2 := h.w.Call(req)
-		if err2 != nil || crash2 == nil || crash2.Kind != "hang" {
-			h.run.Inconclusive(fmt.Sprintf("go-fs worker stalled once and not on retry (%q)", req.Text))
-			if crash2 == nil {
-				return nil, nil
-			}
-			crash = crash2
+		// a stall is a violation only if it reproduces in isolation
+		ok, why := h.w.ConfirmHang(req)
+		if !ok {
+			h.run.Inconclusive(fmt.Sprintf("go-fs worker stalled on %q but the stall was not confirmed: %s", req.Text, why))
+			return nil, nil
 		}
+		crash.Log = why
+		h.noteHang()
 	}
 	if crash != nil {
 		h.count("worker_crashes", 1)
@@ -516,6 +544,7 @@ func TestVerifC10(t *testing.T) {
 	if os.Getenv("VERIF_C10_WORKER") != "" {
 		t.Skip("worker process")
 	}
+	runtime.GOMAXPROCS(2) // the harness is sequential; fewer Ps = less scheduler churn on a busy machine
 	run := verifkit.Start(t, "C10")
 	defer run.Finish()
 	h := &c10Harness{run: run, w: mfgen.NewWorker("TestVerifC10Worker"), rep: mfgen.NewReporter(run)}
@@ -574,6 +603,9 @@ func TestVerifC10(t *testing.T) {
 	run.Cases("main", n, func(i int, _ *verifkit.Rand) {
 		pr := h.window("main", i, n, func(rng *verifkit.Rand) *c10Prep { return h.prepValid(mfgen.MainCase(rng)) })
 		run.Input(pr.c, true)
+		if !h.ready(pr) {
+			return
+		}
 		h.valid(pr)
 		if i%2000 < run.BatchN() {
 			run.Checkpoint()
@@ -583,6 +615,9 @@ func TestVerifC10(t *testing.T) {
 	run.Cases("reject", n, func(i int, _ *verifkit.Rand) {
 		pr := h.window("reject", i, n, func(rng *verifkit.Rand) *c10Prep { return h.prepAny(mfgen.RejectCase(rng)) })
 		run.Input(pr.c, true)
+		if !h.ready(pr) {
+			return
+		}
 		h.reject(pr)
 	})
 	n = run.N(6000, 150000)
@@ -595,6 +630,9 @@ func TestVerifC10(t *testing.T) {
 			return h.prepAny(c)
 		})
 		run.Input(pr.c, true)
+		if !h.ready(pr) {
+			return
+		}
 		h.garbage(pr)
 	})
 	run.Count("worker_spawns", h.w.Spawns)
